@@ -321,6 +321,10 @@ type pairObs struct {
 	ops    [6]string // 0 1 P E(error) -
 	mn, mx string    // canonical value, P, or -
 	key    string    // 0 1 P E -
+	// the six operators and the lookup again, the operands being delivered by the evaluator instead of built by hand:
+	// function parameters (an integer parameter lives in a register), variables of an enclosing function read from a
+	// closure (references), a counted-loop variable (register) on the left / on the right. 7 characters or "-".
+	par, clo, loopL, loopR string
 }
 
 func boolObs(o object.Object, pan string) string {
@@ -385,6 +389,7 @@ func observe(c *Ctx, i, j int) pairObs {
 			po.ops[k] = "-"
 		}
 		po.mn, po.mx, po.key = "-", "-", "-"
+		po.par, po.clo, po.loopL, po.loopR = "-", "-", "-", "-"
 		return po
 	}
 	A, B := fmt.Sprintf("uv(%d)", i), fmt.Sprintf("uv(%d)", j)
@@ -441,6 +446,44 @@ func observe(c *Ctx, i, j int) pairObs {
 			c.Fail("mapkey-panic:"+typeName(a.obj), "CMP "+a.canon+" "+b.canon, "map literal / lookup panicked: "+p)
 		}
 	}
+	// the same operators with operands that reach them through the evaluator
+	top := strings.Join(po.ops[:], "") + po.key
+	body := func(x, y string) string {
+		var ex []string
+		for _, sy := range opSyms {
+			ex = append(ex, x+sy+y)
+		}
+		return "[" + strings.Join(ex, ",") + ",{" + x + ":7}[" + y + "]]"
+	}
+	route := func(name, code string) string {
+		c.Eval()
+		res, pan := evalSrc(code)
+		got := "PPPPPPP"
+		if pan == "" && res != nil && res.Type() == object.ARRAY && len(object.Elements(res)) == 7 {
+			el := object.Elements(res)
+			var parts []string
+			for k := 0; k < 6; k++ {
+				parts = append(parts, boolObs(el[k], ""))
+			}
+			got = strings.Join(parts, "") + keyObs(el[6], "")
+		} else if pan == "" {
+			got = "?" + Canon(res)
+		}
+		if got != top {
+			c.Fail("operator-depends-on-delivery:"+name, "CMP "+a.canon+" "+b.canon,
+				fmt.Sprintf("< <= > >= == != lookup give %s at top level and %s when the operands are %s (%s)", top, got, name, code))
+		}
+		return got
+	}
+	po.par = route("function-parameters", "pf=func(x,y){"+body("x", "y")+"};pf("+A+","+B+")")
+	po.clo = route("closure-references", "ph=func(x,y){pk=func(){"+body("x", "y")+"};pk()};ph("+A+","+B+")")
+	po.loopL, po.loopR = "-", "-"
+	if n, ok := a.obj.(object.Integer); ok && n.Value >= 0 && n.Value <= 3 {
+		po.loopL = route("loop-variable-left", fmt.Sprintf("y=%s;r=nil;for i=%d{if i>%d{r=%s}};r", B, n.Value+1, n.Value-1, body("i", "y")))
+	}
+	if n, ok := b.obj.(object.Integer); ok && n.Value >= 0 && n.Value <= 3 {
+		po.loopR = route("loop-variable-right", fmt.Sprintf("x=%s;r=nil;for i=%d{if i>%d{r=%s}};r", A, n.Value+1, n.Value-1, body("x", "i")))
+	}
 	// the same comparison written with literals must give the same answers as with injected objects
 	if a.src != "" && b.src != "" {
 		var ex []string
@@ -476,7 +519,7 @@ func (po pairObs) line(a, b uval, c int) string {
 	for k, n := range opNames {
 		fmt.Fprintf(&sb, " %s=%s", n, po.ops[k])
 	}
-	fmt.Fprintf(&sb, " min=%s max=%s key=%s gf=%s", po.mn, po.mx, po.key, gf)
+	fmt.Fprintf(&sb, " min=%s max=%s key=%s gf=%s par=%s clo=%s loopl=%s loopr=%s", po.mn, po.mx, po.key, gf, po.par, po.clo, po.loopL, po.loopR)
 	return sb.String()
 }
 
